@@ -12,6 +12,8 @@ import (
 	"os"
 	"os/exec"
 	"strings"
+	"sync/atomic"
+	"time"
 
 	"github.com/gabriel-vasile/mimetype"
 	"github.com/gabriel-vasile/mimetype/internal/verifsim/core"
@@ -28,6 +30,31 @@ type Res struct {
 	Nil   bool   `json:"nil,omitempty"`
 	Chain []Node `json:"chain,omitempty"` // [0] is the value itself, last is the root
 	Loop  bool   `json:"loop,omitempty"`  // the Parent chain did not end within 64 steps
+	// BareLeaf (expectations only): the value's own string may carry a charset
+	// parameter the model does not predict; compare it without parameters.
+	BareLeaf bool `json:"-"`
+}
+
+// BareKey is Key with the parameters of the value's own string removed.
+func (r Res) BareKey() string {
+	if r.Nil || len(r.Chain) == 0 {
+		return r.Key()
+	}
+	c := Res{Chain: append([]Node{{Str: Bare(r.Chain[0].Str), Ext: r.Chain[0].Ext}}, r.Chain[1:]...), Loop: r.Loop}
+	return c.Key()
+}
+
+// CharsetNames are the types the library attaches a charset parameter to.
+var CharsetNames = []string{"text/plain", "text/html", "text/xml"}
+
+// IsCharsetName reports whether a type is one of them.
+func IsCharsetName(s string) bool {
+	for _, n := range CharsetNames {
+		if n == s {
+			return true
+		}
+	}
+	return false
 }
 
 // Observe walks a value with the public accessors only.
@@ -170,8 +197,8 @@ func ServeReference() {
 		if _, err := io.ReadFull(in, payload); err != nil {
 			return
 		}
-		core.Tick()
 		var res Res
+		refBusy.Store(true)
 		switch hdr[0] {
 		case 'B':
 			mimetype.SetLimit(limit)
@@ -180,9 +207,34 @@ func ServeReference() {
 		case 'L':
 			res = Observe(mimetype.Lookup(string(payload)))
 		}
+		refBusy.Store(false)
 		enc.Encode(res)
 		out.Flush()
 	}
+}
+
+var refBusy atomic.Bool
+
+// ReferenceWatchdog exits the reference process when one request takes longer
+// than d; waiting for the next request (however long the worker is busy with a
+// simulation) is not a hang.
+func ReferenceWatchdog(d time.Duration) {
+	go func() {
+		var since time.Time
+		for {
+			time.Sleep(d / 8)
+			if !refBusy.Load() {
+				since = time.Time{}
+				continue
+			}
+			if since.IsZero() {
+				since = time.Now()
+			} else if time.Since(since) > d {
+				fmt.Fprintln(os.Stderr, "HARNESS watchdog: the reference process is stuck in one evaluation")
+				os.Exit(2)
+			}
+		}
+	}()
 }
 
 // Reset restores the pristine tree and the default limit. Kernel goroutine only,
